@@ -67,12 +67,120 @@ def conc_family(name, existing, mk_reqs, targets, retry_count=None):
         schedules='every interleaving at transaction granularity'))
 
 
+def read_after_write_family():
+    """the generation returned by a write equals the one subsequently read -
+    through every route that reports a generation, for a root and for a
+    nested provider whose generations are unrelated"""
+    import z3
+    from engine import app, symex
+    from engine.runner import Family, obligation, finish
+    from engine.scenario import World, U, AGG
+    from engine.symex import to_z3
+
+    def path(ctx):
+        app.setup()
+        with World(ctx) as w:
+            w.rc('VCPU')
+            w.trait('CUSTOM_T1')
+            w.agg(1)
+            w.provider(1)
+            w.provider(2, parent=1)
+            w.provider(3, parent=2)
+            for p in (1, 2, 3):
+                w.inventory(p, 'VCPU', present=True)
+            p = (1, 2, 3)[symex.choose(3)]
+            g = w.prov[p]['generation']
+            kind = symex.choose(4)
+            base = '/resource_providers/' + U(p)
+            if kind == 0:
+                r = app.call('PUT', base + '/inventories', {
+                    'resource_provider_generation': g, 'inventories': {
+                        'VCPU': {'total': ctx.int('t', 1, 1000)}}},
+                    version='1.36')
+            elif kind == 1:
+                r = app.call('PUT', base + '/traits', {
+                    'resource_provider_generation': g,
+                    'traits': ['CUSTOM_T1']}, version='1.36')
+            elif kind == 2:
+                r = app.call('PUT', base + '/aggregates', {
+                    'resource_provider_generation': g,
+                    'aggregates': [AGG(1)]}, version='1.36')
+            else:
+                r = app.call('PUT', base + '/inventories/VCPU', {
+                    'resource_provider_generation': g,
+                    'total': ctx.int('t', 1, 1000)}, version='1.36')
+            if r.status != 200:
+                runner.violation(ctx, 'write-accepted', 'write with the '
+                                 'current generation answered %d' % r.status)
+                return finish(ctx, str(r.status))
+            ret = to_z3(r.json['resource_provider_generation'])
+            obligation(ctx, 'change-bumps-provider-generation',
+                       z3.Not(ret > to_z3(g)),
+                       'returned generation not above the previous one')
+            reads = {
+                'GET provider': lambda: app.call(
+                    'GET', base, version='1.36').json['generation'],
+                'list': lambda: [
+                    e for e in app.call(
+                        'GET', '/resource_providers', version='1.36'
+                    ).json['resource_providers']
+                    if e['uuid'] == U(p)][0]['generation'],
+                'list in_tree': lambda: [
+                    e for e in app.call(
+                        'GET', '/resource_providers?in_tree=' + U(1),
+                        version='1.36').json['resource_providers']
+                    if e['uuid'] == U(p)][0]['generation'],
+                'list uuid': lambda: app.call(
+                    'GET', '/resource_providers?uuid=' + U(p),
+                    version='1.36').json['resource_providers'][0][
+                        'generation'],
+                'inventories': lambda: app.call(
+                    'GET', base + '/inventories', version='1.36'
+                ).json['resource_provider_generation'],
+                'inventory': lambda: app.call(
+                    'GET', base + '/inventories/VCPU', version='1.36'
+                ).json['resource_provider_generation'],
+                'traits': lambda: app.call(
+                    'GET', base + '/traits', version='1.36'
+                ).json['resource_provider_generation'],
+                'aggregates': lambda: app.call(
+                    'GET', base + '/aggregates', version='1.36'
+                ).json['resource_provider_generation'],
+                'usages': lambda: app.call(
+                    'GET', base + '/usages', version='1.36'
+                ).json['resource_provider_generation'],
+                'allocations': lambda: app.call(
+                    'GET', base + '/allocations', version='1.36'
+                ).json['resource_provider_generation'],
+            }
+            for name, rd in reads.items():
+                obligation(ctx, 'returned-generation-is-read-generation',
+                           to_z3(rd()) != ret,
+                           'generation read through %s differs from the one '
+                           'the write returned' % name, sig=name)
+            # the other providers' generations did not move
+            for q in (1, 2, 3):
+                if q == p:
+                    continue
+                back = app.call('GET', '/resource_providers/' + U(q),
+                                version='1.36').json['generation']
+                obligation(ctx, 'error-changes-no-generation',
+                           to_z3(back) != to_z3(w.prov[q]['generation']),
+                           'generation of an untouched provider moved',
+                           sig='other')
+            return finish(ctx, 'ok')
+    return Family('read-after-write', path, bounds=dict(
+        tree='chain of 3 providers with unrelated symbolic generations',
+        writes=4, read_routes=10))
+
+
 def families(tier):
     from checks import c06
     fams = [corpus.make_family(s, [asserts.generations, asserts.no_5xx])
             for s in corpus.shapes(tier)]
     fams.append(conc_family('existing/put+put', True, lambda: [
         c06.put(1, 1, 'int'), c06.put(2, 2, 'int')], {0: 1, 1: 2}))
+    fams.append(read_after_write_family())
     from checks import c05
     fams.append(conc_family('existing/put+put_invs/retry=1', True, lambda: [
         c06.put(1, 1, 'int'), c05.put_invs(2)], {0: 1, 1: None},
